@@ -90,6 +90,39 @@ let terminates (g : grammar) (extras : bool) (rule : string) (input : byte list)
   try (match spec_parse g extras (fun _ -> None) input (nat_of_int spec_fuel) (bytes_of rule) with SFuel -> false | _ -> true)
   with Stack_overflow -> false
 
+(* ---- the hypotheses of (<=), decided on a concrete grammar (C06_acceptance: they imply that the grammar must be accepted) ---- *)
+let rec subexprs (e : expr) : expr list =
+  e :: (match e with
+        | EPosPred x | ENegPred x | ERep x | ERepOnce x | ERepExact (x, _) | ERepMin (x, _) | ERepMax (x, _)
+        | ERepMinMax (x, _, _) | EOpt x | EPush x | ENodeTag (x, _) -> subexprs x
+        | ESeq (l, r) | EChoice (l, r) -> subexprs l @ subexprs r
+        | _ -> [])
+let acceptance_hyps kw builtin uprop_name (g : grammar) : bool =
+  let swc e = starts_with_char_b g uprop_name (nat_of_int (List.length g + 1)) e in
+  let rec ung e = match e with
+    | EIdent y -> [y]
+    | ESeq (l, r) -> ung l @ (if swc l then [] else ung r)
+    | EChoice (l, r) -> ung l @ ung r
+    | EPosPred x | ENegPred x | ERep x | ERepOnce x | ERepExact (x, _) | ERepMin (x, _) | ERepMax (x, _)
+    | ERepMinMax (x, _, _) | EOpt x | EPush x | ENodeTag (x, _) -> ung x
+    | _ -> [] in
+  let body n = match find_rule g n with Some r -> Some r.rexpr | None -> None in
+  let cyclic v =
+    let seen = Hashtbl.create 8 in
+    let rec go n = match body n with
+      | None -> false
+      | Some b -> List.exists (fun y -> y = v || (if Hashtbl.mem seen y then false else (Hashtbl.add seen y (); go y))) (ung b) in
+    go v in
+  validate_pairs kw builtin g = []
+  && not (List.exists (fun r -> zero_count r.rexpr) g)
+  && List.for_all (fun r -> List.for_all (fun n -> match n with
+        | ERep x | ERepOnce x | ERepMin (x, _) -> swc x
+        | EChoice (l, _) -> swc l
+        | ENodeTag (x, _) -> check_silent_builtin builtin g x = []
+        | _ -> true) (subexprs r.rexpr)) g
+  && List.for_all (fun r -> not (is_ws_or_comment r.rname) || swc r.rexpr) g
+  && not (List.exists (fun r -> cyclic r.rname) g)
+
 let alphabet = ["x"; "y"; " "]
 let rec all_strings n = if n = 0 then [""] else
   let shorter = all_strings (n - 1) in
@@ -101,8 +134,8 @@ let () =
   let kws, bis = if Array.length Sys.argv > 2 then read_names Sys.argv.(2) else (SS.empty, SS.empty) in
   let kw n = SS.mem (string_of_bytes n) kws and builtin n = SS.mem (string_of_bytes n) bis in
   let uprop_name n = let s = string_of_bytes n in SS.mem s bis && not (SS.mem s kws) in
-  ignore uprop_name;
-  let n = ref 0 and accepted = ref 0 and thm_checked = ref 0 and sem_checked = ref 0 in
+  let uprop_name n = uprop_name n && (match ascii_builtin n with None -> true | Some _ -> false) && string_of_bytes n <> "NEWLINE" in
+  let n = ref 0 and accepted = ref 0 and thm_checked = ref 0 and sem_checked = ref 0 and acc_checked = ref 0 in
   let classes = Hashtbl.create 8 in
   let bump k = Hashtbl.replace classes k (1 + try Hashtbl.find classes k with Not_found -> 0) in
   let inputs3 = all_strings 3 in
@@ -117,6 +150,11 @@ let () =
          let model = verdict (validate kw builtin cfg g) in
          if model = "ok" then incr accepted;
          if model <> impl then report "model" case impl model;
+         (* (<=) on the real code: the hypotheses of C06_acceptance hold => the real front end must accept *)
+         if acceptance_hyps kw builtin uprop_name g then begin
+           incr acc_checked;
+           if impl <> "ok" then begin bump "acceptance"; report "spec" case impl "ok (class=acceptance)" end
+         end;
          (* the theorem for the repaired validator, tested: accepted + stack-free + readable + outside the class => Layer S terminates *)
          if validate kw builtin cfg_fixed g = [] && no_stack_builtins g && readable g && not (ws_reaches_nonatomic g) then begin
            incr thm_checked;
@@ -138,7 +176,7 @@ let () =
              if not (no_stack_builtins g) then "stack"
              else if validate kw builtin { fix_lr = true; fix_tag = cfg.fix_tag } g <> [] && validate kw builtin { fix_lr = false; fix_tag = cfg.fix_tag } g = [] then "leftrec"
              else if validate kw builtin { fix_lr = cfg.fix_lr; fix_tag = true } g <> [] && validate kw builtin { fix_lr = cfg.fix_lr; fix_tag = false } g = [] then "tagrep"
-             else if validate kw builtin cfg_fixed g <> [] then "leftrec+tagrep"
+             else if validate kw builtin cfg_fixed g <> [] then "missed-check"
              else if ws_reaches_nonatomic g then "ws" else "other" in
            bump cls;
            if cls <> "stack" then report "spec" case impl ("term (class=" ^ cls ^ ")");
@@ -157,5 +195,5 @@ let () =
          end
        | _ -> ())
     | _ -> ());
-  Printf.printf "#RUNNER\tcases=%d\tmismatches=%d\tmodel_accepted=%d\tthm_checked=%d\tsem_checked=%d%s\n" !n !mismatches !accepted !thm_checked !sem_checked
+  Printf.printf "#RUNNER\tcases=%d\tmismatches=%d\tmodel_accepted=%d\tthm_checked=%d\tsem_checked=%d\tacceptance_checked=%d%s\n" !n !mismatches !accepted !thm_checked !sem_checked !acc_checked
     (Hashtbl.fold (fun k v acc -> acc ^ Printf.sprintf "\tclass/%s=%d" k v) classes "")
